@@ -279,6 +279,22 @@ def judge(w, brute, case):
         return [("extract:raises:" + type(e).__name__, "total_order/partial_order raised %r" % (e,))], "error"
     if to1 != to2:
         out.append(("total_order:unstable", "total_order() returned %r then %r" % (to1, to2)))
+    # the answers belong to the caller: whatever it does with the returned lists, the network must
+    # keep reporting the same orders (history: query, mutate the answer in place, query again)
+    try:
+        to_a, po_a = net.total_order(), net.partial_order()
+        snap_to, snap_po = (None if to_a is None else list(to_a)), (None if po_a is None else list(po_a))
+        for ans in (to_a, po_a):
+            if isinstance(ans, list):
+                ans.reverse()
+                ans.append(ans[0] if ans else ("x", "y"))
+        to_b, po_b = net.total_order(), net.partial_order()
+        if to_b != snap_to:
+            out.append(("total_order:depends-on-callers-list", "total_order() returned %r after the caller modified the earlier answer %r in place" % (to_b, snap_to)))
+        if po_b != snap_po:
+            out.append(("partial_order:depends-on-callers-list", "partial_order() returned %r after the caller modified the earlier answer %r in place" % (po_b, snap_po)))
+    except Exception as e:
+        out.append(("extract:raises-on-requery:" + type(e).__name__, "re-querying after modifying the returned lists raised %r" % (e,)))
     temporal_extra = ex is not None and ex[0] != "nontemporal"
     if temporal_extra:
         if to1 is not None:
